@@ -254,6 +254,8 @@ class Tr:
         if op is ast.Pow:
             if isinstance(tb, Lit) and tb.v == 2 and ta == K:
                 return (f"({a} * {a})", K)
+            if isinstance(tb, Lit) and tb.v == 3 and ta == K:
+                return (f"(({a} * {a}) * {a})", K)
             self.err(e, "power")
         t = self.join(ta, tb)
         if t is None:
@@ -329,6 +331,16 @@ class Tr:
         if fsrc == "np.reciprocal" and len(e.args) == 1:
             a, ta = self.expr(e.args[0])
             return (f"(o.ofNat 1 / {self.coerce(a, ta, K, e)})", K)
+        if fsrc in ("min", "max") and len(e.args) == 2:
+            a, ta = self.expr(e.args[0])
+            b, tb = self.expr(e.args[1])
+            t = self.join(ta, tb)
+            if t not in (K, I, N):
+                self.err(e, "min/max of these types")
+            if t == K:
+                self.uses_order = True
+            fn = "pyMin" if fsrc == "min" else "pyMax"
+            return (f"({fn} {self.coerce(a, ta, t, e)} {self.coerce(b, tb, t, e)})", t)
         if fsrc == "round" and len(e.args) == 1:
             a, ta = self.expr(e.args[0])
             return (f"(o.round {self.coerce(a, ta, K, e)})", I)
